@@ -347,3 +347,38 @@ Theorem fragment_body_text_escaped s rest :
   diffable_fragment (SText s :: rest) = html_escape false s ++ diffable_fragment rest /\
   ~ In 60%N (html_escape false s).
 Proof. split; [reflexivity|exact (proj1 (escape_no_angle false s))]. Qed.
+
+(* ------------------------------------------------------------------ the page's title (get_title) *)
+Lemma first_title_foreign name a v cs : is_foreign name = true -> first_title (SEl name a v cs) = None.
+Proof. intros F. cbn [first_title]. rewrite F. reflexivity. Qed.
+
+(* a graphic contributes no title, whatever it contains *)
+Lemma first_title_in_skips_graphic name a v cs rest : is_foreign name = true ->
+  first_title_in (SEl name a v cs :: rest) = first_title_in rest.
+Proof. intros F. cbn [first_title_in]. rewrite (first_title_foreign _ a v cs F). reflexivity. Qed.
+
+Lemma first_title_of_title a v t : first_title (SEl (s2l "title") a v [SText t]) = Some t.
+Proof. reflexivity. Qed.
+Lemma first_title_of_empty_title a v : first_title (SEl (s2l "title") a v []) = Some [].
+Proof. reflexivity. Qed.
+
+Lemma first_title_in_app l1 l2 :
+  first_title_in (l1 ++ l2) = match first_title_in l1 with Some t => Some t | None => first_title_in l2 end.
+Proof.
+  induction l1 as [|c r IH]; [reflexivity|]. cbn [app first_title_in]. destruct (first_title c); [reflexivity|exact IH].
+Qed.
+
+(* the head's title wins over anything in the body; without one in the head the body's first title outside graphics counts *)
+Theorem doc_title_head_first d t : first_title_in (d_head d) = Some t -> doc_title d = t.
+Proof. intros H. unfold doc_title. rewrite first_title_in_app, H. reflexivity. Qed.
+Theorem doc_title_body_graphics_ignored d name a v cs rest :
+  first_title_in (d_head d) = None -> d_body d = SEl name a v cs :: rest -> is_foreign name = true ->
+  doc_title d = match first_title_in rest with Some t => t | None => [] end.
+Proof.
+  intros H B F. unfold doc_title. rewrite first_title_in_app, H, B, (first_title_in_skips_graphic _ a v cs rest F). reflexivity.
+Qed.
+Example doc_title_example :
+  doc_title {| d_doctype := None; d_html_attrs := []; d_head_attrs := []; d_head := [];
+               d_body_attrs := [];
+               d_body := [SEl (s2l "svg") [] false [SEl (s2l "title") [] false [SText (s2l "Icon")]]; SText (s2l "hi")] |} = [].
+Proof. reflexivity. Qed.
